@@ -52,7 +52,7 @@ CHECKS.update({
         "quick": T(50000, 60), "thorough": T(2000000, 900),
         "rule": "one run = generated world + config bytes (structured generator, byte-level mutation of it, or boundary-directed: tag lengths 95..900, message = limit-1/0/+1, output ':' forms, short syslog names, huge numbers, ident/path near their limits, 1 MiB limits, lines around 1024 bytes) + 1-2 wrapped execs under ASan+UBSan in both builds, and an 8 % share of the seeds once more with the uninstrumented library under valgrind memcheck (uninitialised values, which ASan does not see); "
                 "oracle = sanitizer report, fatal signal, step cap / watchdog, exec not reached; non-trivial = non-empty config; distinct = (options present, tag-count bucket, boundary probe, env/tty class, size bucket)",
-        "probes": ["tag_ge_100", "msg_eq_limit", "environ_null", "limit_1mib", "line_ge_1024", "output_colon", "short_syslog_name", "huge_number", "ident_near_256", "path_near_max", "errlog_at_limit", "login_at_buffer_size"],
+        "probes": ["tag_ge_100", "msg_eq_limit", "environ_null", "limit_1mib", "line_ge_1024", "output_colon", "short_syslog_name", "huge_number", "ident_near_256", "path_near_max", "errlog_at_limit", "login_at_buffer_size", "record_ge_4096"],
         "assumptions": ["no schedule or fault dimension: seeded generation against a sanitizer oracle inside the simulated OS (weak fit, DESIGN 3/C02)"],
     },
     "C05": {
@@ -202,7 +202,7 @@ CHECKS.update({
         "quick": T(40960, 60), "thorough": T(600000, 600),
         "rule": "families of 256 seeds = (initial content from 9 fixed + generated files incl. absent and files of 230-600 entries that exceed one stdio buffer, enable or disable): slot 0 = census of the simulated system calls of the fault-free run; slots 1..n+1 = the process is killed immediately before simulated call k (k = n+1: after the last), which covers 'before and after every call'; further slots = each write-type call (open for writing, write, close, fsync, rename) failing with ENOSPC, EIO, EDQUOT or writing short; then the same errors persisting from that call on (a full disk stays full); then one ENOSPC followed by a kill before each later call (error paths are killed too); afterwards the preload file must equal the old or the model's complete new content. "
                 "non-trivial = crash or fault fired (or census); distinct = (operation, content hash, mode, crash index, fault)",
-        "probes": ["census", "crash_fired", "enospc", "write_error", "short_write", "sticky_fault", "fault_then_crash"],
+        "probes": ["census", "crash_fired", "enospc", "write_error", "short_write", "sticky_fault", "fault_then_crash", "stale_temp_file"],
     },
 })
 MANIFEST_TEXT.update({
